@@ -8,7 +8,8 @@ from lib import esc
 
 THEOREMS = ['C11.C11_string_order', 'C11.C11_keys_order', 'C11.C11_compare_order', 'C11.C11_compare_identity',
             'C11.C11_sorted_perm_unique', 'C11.C11_alphabet_nodup', 'C11.C11_alphabet_lower', 'C11.C11_case_counterexample',
-            'C11.C11_zero_weight_counterexample', 'C11.C11_file_cycle_counterexample']
+            'C11.C11_zero_weight_counterexample', 'C11.C11_file_cycle_counterexample', 'C11.C11_sort_order_partial',
+            'C11.C11_sort_canonical_partial', 'C11.C11_reference_sort']
 NOID = {'comment', 'hat', 'profile', 'all'}       # kinds whose Compare ignores part of the rule on purpose
 WEIGHTLESS = {'comment', 'abi', 'alias', 'variable'}
 
